@@ -471,7 +471,7 @@ func genSpecValue(depth int, unsupported bool) *rapid.Generator[*spec.Value] {
 			max = 6
 		}
 		if unsupported && rapid.IntRange(0, 9).Draw(rt, "unsup") == 0 {
-			return spec.Unsupported(rapid.SampledFrom([]string{spec.TChan, spec.TFunc, spec.TComplex, spec.TArray}).Draw(rt, "unsupKind"))
+			return spec.Unsupported(rapid.SampledFrom([]string{spec.TChan, spec.TFunc, spec.TComplex, spec.TArray, spec.TIntMap, spec.TBoolMap}).Draw(rt, "unsupKind"))
 		}
 		switch rapid.IntRange(0, max).Draw(rt, "valueForm") {
 		case 0, 1:
